@@ -47,7 +47,11 @@ RULE = ("per enumeration (1..200 members; names that are prefixes of each other,
         "middle / the last member, declared right after the member, in the middle or last): index inputs at "
         "len(members) .. len(members)+aliases+1 alone and among valid ones, alias names as str input (rejected "
         "as unknown names), members obtained through the alias (the member itself), foreign members obtained "
-        "through an alias, decode of everything accepted")
+        "through an alias, decode of everything accepted.  Groups of 2-3 enumerations that share ONE class-name "
+        "string (a baseline enumeration and redefinitions: members reordered / replaced / added / removed / "
+        "another size) used in one process on freshly created classes: 3-10 interleaved round-trip steps (names "
+        "in declaration and sorted order, random names, a name that only the other enumeration has, indices, own "
+        "members), in both orders and grouped by enumeration; every step is compared with its own enumeration")
 TRUSTED = ["numpy 1.26 (asarray, isin, argsort, searchsorted, fancy indexing, unicode comparison) and Python's "
            "enum machinery are modelled by EnumModel.v (lists, insertion sort, binary search), covered by the "
            "correspondence only"]
@@ -55,6 +59,9 @@ ASSUMPTIONS = ["enumerations have at most 256 members (index dtype uint8; the ca
                "Python bool counts as int (True encodes as index 1)",
                "the identity of an enumeration is what EnumType.__eq__ compares (identity of the class-name string): "
                "every generated enumeration class has its own name string",
+               "two classes whose __name__ is the same string object compare equal (EnumType.__eq__): in the same-name "
+               "groups only an enumeration's OWN members are given to its encode (a member of the other class of that "
+               "name passes the class check of Enum.encode in /repo: reported to the integrator, not exercised)",
                "member names are printable ASCII, non-empty, without leading underscore; inputs are one-dimensional",
                "an alias (second name for an existing member's value) is not a member name: Enum.encode rejects it like "
                "any unknown name, E[alias] is the canonical member; the model's enumeration is the list of canonical names"]
@@ -191,22 +198,59 @@ def obs_indices(a):
     return [int(v) for v in a.view(numpy.ndarray)]
 
 
+def run_round(classes, x):
+    """classes[0].encode(x), then decode / decode_to_str / encode again of what was accepted."""
+    E = classes[0]
+    arg = mk_input(classes, x)
+    a = E.encode(arg)                      # an exception here is the whole observation
+    enc = obs_indices(a)
+    if x["k"] == "encoded" and a is not arg:
+        raise RuntimeError("harness: an EnumArray was not returned as is")
+    return [enc,
+            guarded(lambda: obs_members(classes, a.decode())),
+            guarded(lambda: [str(s) for s in a.decode_to_str()]),
+            guarded(lambda: obs_indices(E.encode(a)))]
+
+
+_GROUPS = [0]
+
+
+def same_name_classes(enums):
+    """Fresh enumeration classes that all carry the SAME class-name string object (a baseline
+    enumeration and its redefinitions by reforms, or two modules declaring the same name):
+    EnumType.__eq__/__hash__ cannot tell them apart.  Created anew for every run of a case so
+    that a case always starts from classes nothing has been done with."""
+    _GROUPS[0] += 1
+    name = "SameName%d" % _GROUPS[0]          # one string object for the whole group
+    out = []
+    for names in enums:
+        cls = ie.Enum(name, dict(declaration(names, [])))
+        members = list(cls)
+        if (cls.__name__ is not name or [m.name for m in members] != list(names)
+                or [m.index for m in members] != list(range(len(names)))):
+            raise RuntimeError(f"harness: enumeration not created as declared: {names!r}")
+        out.append(cls)
+    if any(a != b for a in out for b in out):
+        raise RuntimeError("harness: classes of one name do not compare equal")
+    return out
+
+
+def step_case(c, st):
+    """A step of a multi case seen as a round case of its own enumeration (which is then number 0)."""
+    return {"op": "round", "enums": [c["enums"][st["e"]]], "input": st["input"]}
+
+
 def run_impl(c):
+    if c["op"] == "multi":
+        group = same_name_classes(c["enums"])
+        return [guarded(run_round, [group[st["e"]]], st["input"]) for st in c["steps"]]
     classes = classes_of(c)
     E = classes[0]
     op = c["op"]
     if op == "encode":
         return obs_indices(E.encode(mk_input(classes, c["input"])))
     if op == "round":
-        arg = mk_input(classes, c["input"])
-        a = E.encode(arg)                      # an exception here is the whole observation
-        enc = obs_indices(a)
-        if c["input"]["k"] == "encoded" and a is not arg:
-            raise RuntimeError("harness: an EnumArray was not returned as is")
-        return [enc,
-                guarded(lambda: obs_members(classes, a.decode())),
-                guarded(lambda: [str(s) for s in a.decode_to_str()]),
-                guarded(lambda: obs_indices(E.encode(a)))]
+        return run_round(classes, c["input"])
     if op == "decode":
         pv = None if c["pv"] is None else classes[c["pv"]]
         a = ie.EnumArray(numpy.array(c["values"], dtype=c["dtype"]), pv)
@@ -272,6 +316,12 @@ def cinput(c, x):
 
 def coq_case(c):
     op = c["op"]
+    if op == "multi":
+        steps = []
+        for st in c["steps"]:
+            sc = step_case(c, st)
+            steps.append(f"({cenum(0, sc['enums'][0])}, {cinput(sc, sc['input'])})")
+        return f"(KMulti {clist(steps)})"
     e = cenum(0, c["enums"][0])
     if op == "encode":
         return f"(KEncode {e} {cinput(c, c['input'])})"
@@ -366,6 +416,17 @@ def check_encoded(c, o, tag):
 
 def oracle(c, o):
     op = c["op"]
+    if op == "multi":
+        if isinstance(o, Err):
+            return f"multi-raised: {o.kind}"
+        for j, (st, oj) in enumerate(zip(c["steps"], o)):
+            msg = oracle(step_case(c, st), oj)
+            if msg:
+                cls, _, rest = msg.partition(":")
+                order = [s["e"] for s in c["steps"][:j + 1]]
+                return (f"same-name-{cls}: step {j} (enumerations used so far, in order: {order}) on enumeration "
+                        f"#{st['e']} {c['enums'][st['e']][:8]} among {len(c['enums'])} of one class name:{rest}")
+        return None
     names = c["enums"][0]
     n = len(names)
     if op in ("encode", "round"):
@@ -435,6 +496,8 @@ def oracle(c, o):
 
 
 def input_size(c):
+    if c["op"] == "multi":
+        return sum(input_size(step_case(c, st)) for st in c["steps"])
     if "input" in c:
         x = c["input"]
         if x["k"] == "arr_other":
@@ -452,6 +515,12 @@ def nontrivial(c, o):
 def classify(c, o):
     op = c["op"]
     tag = op
+    if op == "multi":
+        kinds = sorted({st["input"]["k"] for st in c["steps"]})
+        tag += f":{len(c['enums'])}enums:" + "+".join(kinds)
+        if isinstance(o, list) and any(isinstance(x, Err) for x in o):
+            tag += ":some-rejected"
+        return tag
     if "input" in c:
         x = c["input"]
         tag += ":" + x["k"]
@@ -771,6 +840,104 @@ def battery(rng, names, foreign, aliases=None):
     return cases
 
 
+def variant(rng, names):
+    """Another enumeration a reform could declare under the same name: the same members in another
+    order, one member replaced / added / removed, another size, or something else altogether."""
+    n = len(names)
+    how = rng.choice(["reorder", "reverse", "replace", "add", "remove", "swap2", "other", "resize"])
+    have = set(names)
+
+    def fresh():
+        while True:
+            w = rng.choice(POOLS["words"] + POOLS["prefix"][:40]) if rng.random() < 0.7 else random_word(rng)
+            if valid_name(w) and w not in have:
+                have.add(w)
+                return w
+
+    v = list(names)
+    if how == "reorder":
+        rng.shuffle(v)
+    elif how == "reverse":
+        v.reverse()
+    elif how == "replace":
+        v[rng.randrange(n)] = fresh()
+    elif how == "add":
+        v.insert(rng.randrange(n + 1), fresh())
+    elif how == "remove" and n > 1:
+        del v[rng.randrange(n)]
+    elif how == "swap2" and n > 1:
+        i, j = rng.sample(range(n), 2)
+        v[i], v[j] = v[j], v[i]
+    elif how == "resize":
+        m = rng.choice([1, 2, n + 3, 2 * n + 1, max(1, n // 2)])
+        v = (v + [fresh() for _ in range(max(0, m - n))])[:m]
+        rng.shuffle(v)
+    else:
+        v = gen_names(rng, rng.choice([n, n, max(1, n - 1), n + 1, rng.randrange(1, 12)]))
+    if v == list(names):              # nothing changed (n = 1, or an unlucky shuffle): make it differ
+        v = v[::-1] if n > 1 and v[::-1] != v else v + [fresh()]
+    return v
+
+
+def multi_cases(rng, count):
+    """Several enumerations of ONE class name used in one process, interleaved, in both orders:
+    every step is a round trip on one of them and is judged against that enumeration alone."""
+    cases = []
+    for g in range(count):
+        n = rng.choice([2, 2, 3, 3, 3, 4, 5, 6, 8, 12, rng.randrange(2, 40)])
+        base = gen_names(rng, n)
+        enums = [base, variant(rng, base)]
+        if rng.random() < 0.35:
+            enums.append(variant(rng, rng.choice(enums)))
+
+        def one_input(k, kind):
+            names = enums[k]
+            m = len(names)
+            picks = [rng.randrange(m) for _ in range(rng.choice([1, 2, 3, m, m + 2, 2 * m]))]
+            if kind == "all":
+                return {"k": "arr_str", "values": list(names)}
+            if kind == "sorted":
+                return {"k": "seq", "container": "list", "elems": [["s", s] for s in sorted(names)]}
+            if kind == "str":
+                vals = [names[i] for i in picks]
+                return ({"k": "arr_str", "values": vals} if rng.random() < 0.5 else
+                        {"k": "seq", "container": rng.choice(["list", "tuple"]), "elems": [["s", s] for s in vals]})
+            if kind == "str_bad":     # a name of ANOTHER enumeration of the group (or a near miss) among valid ones
+                others = [s for j, e in enumerate(enums) if j != k for s in e if s not in names]
+                bad = rng.choice(others) if others and rng.random() < 0.7 else rng.choice(near_misses(rng, names))
+                vals = place(rng, [names[i] for i in picks], [bad], rng.choice(["first", "last", "middle"]))
+                return {"k": "arr_str", "values": vals}
+            if kind == "int":
+                return ({"k": "arr_int", "dtype": rng.choice(INT_DTYPES), "values": [min(i, 127) for i in picks]}
+                        if rng.random() < 0.5 else {"k": "seq", "container": "list", "elems": [["i", i] for i in picks]})
+            if kind == "int_bad":
+                return {"k": "arr_int", "dtype": "int64", "values": place(rng, picks, [m, m + 1, -1], "middle")}
+            elems = [["m", 0, i] for i in picks]        # the step's own members
+            return {"k": "arr_obj", "elems": elems} if rng.random() < 0.5 else {"k": "seq", "container": "list", "elems": elems}
+
+        kinds = ["all", "sorted", "str", "str", "str", "str_bad", "int", "int_bad", "mem"]
+        nsteps = rng.randrange(3, 9)
+        pattern = rng.choice(["ab", "ba", "aab", "abab", "random"])
+        order = [rng.randrange(len(enums)) for _ in range(nsteps)] if pattern == "random" else \
+                [("ab".index(pattern[i % len(pattern)])) for i in range(nsteps)]
+        if len(enums) == 3 and pattern != "random":
+            order[rng.randrange(nsteps)] = 2
+        steps = [{"e": k, "input": one_input(k, rng.choice(kinds))} for k in order]
+        # every enumeration of the group encodes names at least once
+        for k in range(len(enums)):
+            if not any(st["e"] == k and st["input"]["k"] in ("arr_str", "seq") and
+                       (st["input"].get("values") or st["input"].get("elems")) for st in steps):
+                steps.append({"e": k, "input": one_input(k, rng.choice(["all", "sorted", "str"]))})
+        cases.append({"op": "multi", "enums": enums, "steps": steps})
+        # the same steps with the enumerations taking turns in the opposite order
+        perm = list(range(len(enums)))[::-1]
+        cases.append({"op": "multi", "enums": [enums[p] for p in perm],
+                      "steps": [{"e": perm.index(st["e"]), "input": st["input"]} for st in steps][::-1]})
+        # and first everything of one enumeration, then everything of the next
+        cases.append({"op": "multi", "enums": enums, "steps": sorted(steps, key=lambda st: st["e"])})
+    return cases
+
+
 SIZES = [1, 1, 2, 2, 3, 3, 4, 5, 6, 7, 8, 9, 12, 15, 16, 17, 24, 31, 32, 33, 50, 64, 100, 127, 128, 129, 199, 200]
 
 
@@ -802,6 +969,7 @@ def generate(rng, tier):
             if rng.random() < 0.5:
                 aliases[1] = gen_aliases(rng, foreign[0])
         cases += battery(rng, names, foreign, aliases)
+    cases += multi_cases(rng, {"quick": 60, "escalated": 250, "thorough": 1200}[tier])
     return cases
 
 
@@ -850,6 +1018,23 @@ def neighbours(c, rng):
 
 
 def shrink(c, still_fails):
+    if c["op"] == "multi":
+        steps = list(c["steps"])
+        changed = False
+        i = 0
+        while i < len(steps) and len(steps) > 1:
+            cand = dict(c)
+            cand["steps"] = steps[:i] + steps[i + 1:]
+            if still_fails(cand):
+                steps = cand["steps"]
+                changed = True
+            else:
+                i += 1
+        if not changed:
+            return None
+        out = dict(c)
+        out["steps"] = steps
+        return out
     p = _payload(c)
     if p is None:
         return None
